@@ -604,7 +604,10 @@ def main(run):
                  "forms lower/camel/snake/acronym/ALLCAPS/exported) with every combination of `shoot: get|set|new|def=` field "
                  "directives in several spellings, type-level getter/setter directives on ~35%% of the structs, a few exported "
                  "fields with a directive (fatal); `shoot new -getset -type=<all or all but one, declaration or random "
-                 "order>`, 20%% of the packages run twice.  Per selected struct one static case (methods declared on T, method "
+                 "order>`, 20%% of these run twice; in ~1 of 4 packages the tool picks the types itself (`-file=<source>` or "
+                 "`-type=*` with the //go:generate line in the source) on a directory without generated files -- the first two "
+                 "packages are the fixed corpus Zed/Alpha and Zed/Mike/Alpha (embedded type declared first, sorting last), the "
+                 "next four are generated ones of that shape (generator.tool_selected_with_embedded_sorting_after_embedder).  Per selected struct one static case (methods declared on T, method "
                  "set of *T, <T>Getter/<T>Setter: embedded / explicit / complete method set / implemented by *T) and one "
                  "executed run per (entry point NewT(sentinels) | zero value, setter of *T's method set): all leaves before "
                  "and after, all getters after.  evaluations = static cases + runs.  non-trivial = distinct (struct, order, "
